@@ -57,6 +57,7 @@ type Exec struct {
 	caseHint    *caseHint
 	knownWidth  map[int]int
 	collectLocs *[]Loc
+	freshN      int
 	absLoops    int // >0 while a sort comparison is evaluated: its loops are cut without invariant (what follows a loop is arbitrary)
 	verTops     map[int][]*Term // heap array version -> allocation marks of states it was part of
 	verTopSeen  map[[2]int]bool
@@ -101,6 +102,8 @@ type Frame struct {
 	deferCell   map[*ssa.Defer]*Cell // flags of defers that not every return passes
 	callRes     map[string]Val       // result_of(k, f): by call position
 	callArgs    map[string][]Val     // arg_of(k, f, i)
+	callAt      map[string]callSite  // where and under which path condition that call ran
+	cur         *ssa.BasicBlock      // block being executed (nil after the body: postconditions)
 	oldOverride *State
 }
 
@@ -217,6 +220,28 @@ func (e *Exec) newFrame(fn *ssa.Function) *Frame {
 	return &Frame{fn: fn, vals: map[ssa.Value]Val{}, allocs: map[*ssa.Alloc]Val{}, loops: map[*ssa.BasicBlock]*loopInfo{}}
 }
 
+// callSite: the path condition under which a call named by arg_of / result_of was executed, and its block.
+type callSite struct {
+	reach *Term
+	block *ssa.BasicBlock
+}
+
+// onThisPath: the value a clause gets for arg_of / result_of. The recorded value belongs to the paths on which the call
+// ran; where the clause sits on a path that bypassed the call (not dominated by it), the value is arbitrary there, so a
+// clause cannot be satisfied by what another branch did.
+func (e *Exec) onThisPath(fr *Frame, key string, v Val) Val {
+	cs, ok := fr.callAt[key]
+	if !ok || v.T == nil || cs.reach == nil || isTrue(cs.reach) {
+		return v
+	}
+	if fr.cur != nil && cs.block != nil && cs.block.Dominates(fr.cur) {
+		return v
+	}
+	e.freshN++
+	other := e.c.Fresh(fmt.Sprintf("notcalled.%d", e.freshN), v.T.sort)
+	return Val{T: e.c.Ite(cs.reach, v.T, other)}
+}
+
 type retPoint struct {
 	st   *State
 	vals []Val
@@ -314,6 +339,7 @@ func (e *Exec) run(fr *Frame, args []Val, st *State) (*State, []Val) {
 		if li := fr.loops[b]; li != nil {
 			cur = e.enterLoop(fr, li, cur)
 		}
+		fr.cur = b
 		terminated := false
 		for _, ins2 := range b.Instrs {
 			if _, ok := ins2.(*ssa.Phi); ok {
@@ -1086,6 +1112,10 @@ func (e *Exec) instr(fr *Frame, st *State, ins ssa.Instruction) {
 			}
 			pp := e.eng.fset.Position(x.Pos())
 			fr.callArgs[fmt.Sprintf("%s:%d", pp.Filename, pp.Offset)] = vs
+			if fr.callAt == nil {
+				fr.callAt = map[string]callSite{}
+			}
+			fr.callAt[fmt.Sprintf("%s:%d", pp.Filename, pp.Offset)] = callSite{reach: st.reach, block: x.Block()}
 		}
 		e.siteAsserts(fr, st, x.Pos(), 1)
 		fr.vals[x] = e.call(fr, st, x, &x.Call)
